@@ -86,7 +86,7 @@ def rand_collider_chain(rng):
 
 def cases(rng: random.Random, tier: str):
     out = [dict(c) for c in CORPUS] + _load_corpus()
-    for _ in range(1100 if tier == "quick" else 8000):
+    for _ in range(6000 if tier == "quick" else 40000):
         r = rng.random()
         if r < 0.12:
             g, a, b, Cs = rand_collider_chain(rng)
@@ -114,7 +114,7 @@ def cases(rng: random.Random, tier: str):
         elif r < 0.4:
             b = 91
         out.append({"kind": "one", "g": g, "a": a, "b": b, "C": Cs})
-    for _ in range(50 if tier == "quick" else 400):
+    for _ in range(200 if tier == "quick" else 1500):
         g = rand_admg(rng, 2, 4) if rng.random() < 0.5 else G.rand_graph(rng, 2, 4, acyclic=False)
         out.append({"kind": "table", "g": g})
     for _ in range(40 if tier == "quick" else 300):
